@@ -313,9 +313,9 @@ def make_builtins(interp):
         "len": _len, "range": _range, "isinstance": _isinstance, "min": _min, "max": _max, "sum": _sum,
         "all": _all, "any": _any, "enumerate": _enumerate, "zip": _zip, "getattr": _getattr,
         "hasattr": _hasattr, "abs": _abs, "divmod": _divmod, "callable": _callable, "type": _type,
-        "sorted": _sorted, "tuple": _tuple, "list": _list, "bool": _bool, "str": _str,
+        "sorted": _sorted, "tuple": TypeTag("tuple", _tuple), "list": TypeTag("list", _list), "bool": TypeTag("bool", _bool), "str": TypeTag("str", _str),
         "float": TypeTag("float", _to_float), "int": TypeTag("int", _to_int), "round": _round,
-        "dict": lambda *a, **k: dict(*a, **k), "set": lambda it=(): set(interp.iterate(it)),
+        "dict": TypeTag("dict", lambda *a, **k: dict(*a, **k)), "set": TypeTag("set", lambda it=(): set(interp.iterate(it))),
         "frozenset": lambda it=(): frozenset(interp.iterate(it)),
         "reversed": lambda it: list(reversed(interp.iterate(it))),
         "iter": _iter, "next": _next, "id": lambda x: id(x), "repr": lambda x: Opaque("repr"),
@@ -1052,7 +1052,11 @@ def ndarray_attr(interp, x: NDArr, name):
     if name == "mean":
         return lambda *a, **k: binop("/", np_["sum"](x), ndarray_attr(interp, x, "size"))
     if name == "astype":
-        return lambda *a, **k: x.copy()
+        def astype(t=None, **k):
+            if (isinstance(t, TypeTag) and t.name == "int") or t is int:
+                return A.elementwise(_to_int, x, name="astype_int", kind="int")
+            return x.copy()
+        return astype
     if name == "view":
         return lambda *a, **k: x
     if name == "fill":
